@@ -76,12 +76,128 @@ def templates(ctx):
     ctx.extra['list_template_option_sets'] = {'total': len(cases), 'left_recursive_expansions': nrec}
 
 
+def seq_case(c, smart):
+    """one element list of specs/llparser/LLSeqExpand.tla on the real ProdSequence; -> problem or None.
+    The constructor has no other objection to these grammars, so a left-recursive expansion must give GrammarIsRecursive"""
+    from ak import llparser
+    tok = r"(?P<SPACE>\s+)|(?P<WORD>[a-z][a-z0-9]*)|(?P<COMMA>,)|(?P<SEMI>;)"
+    syn = {'COMMA': ',', 'SEMI': ';'}
+    names = {'w': 'WORD', 'CM': 'CM', 'OC': 'OC', 'CH': 'CH'}
+    els = [names[x] for x in c['elems']]
+    prods = {'E': [('SEQ', ';')], 'SEQ': llparser.ProdSequence(*els)}
+    if 'CM' in els:
+        prods['CM'] = [(',',)]
+    if 'OC' in els or 'CH' in els:
+        prods['OC'] = [(',',), None]
+    if 'CH' in els:
+        prods['CH'] = [('OC',)]
+    cls = ll.parser_class()
+    where = 'E -> SEQ ";", SEQ = ProdSequence(%s), smart=%s' % (', '.join(els), smart)
+    try:
+        p = cls(tok, synonyms=syn, productions=prods, smart_factorization=smart)
+        outcome = 'ok'
+    except llparser.GrammarIsRecursive:
+        outcome = 'GrammarIsRecursive'
+    except Exception as e:
+        outcome = '%s: %s' % (type(e).__name__, ' '.join(str(e).split())[:80])
+    want = 'GrammarIsRecursive' if c['leftrec'] else 'ok'
+    if outcome != want:
+        return '%s: constructor gives %s, the productions the sequence generates %s left recursive (symbols %s): expected %s' % (
+            where, outcome, 'are' if c['leftrec'] else 'are not', c['lrsyms'], want)
+    if outcome == 'ok':
+        for text in (';', 'w ;', 'w , w , ;', ', , w ;', 'w w', 'w , ; ;'):
+            try:
+                p.parse_counted(text, ll.STEP_BUDGET)
+            except ll._Budget:
+                return '%s: parse(%r) does not return within %d machine steps' % (where, text, ll.STEP_BUDGET)
+            except llparser.Error:
+                pass
+            except RecursionError:
+                return '%s: parse(%r) raised RecursionError' % (where, text)
+    return None
+
+
+def sequences(ctx):
+    r = ctx.tlc('llparser/LLSeqExpand.tla', 'SPECIFICATION Spec\nCHECK_DEADLOCK FALSE\nINVARIANT RecursiveIffNullableElement\n',
+                workers=4, timeout=1200)
+    cases = [c for c in r.printed if isinstance(c, dict)]
+    if len(cases) != 16:
+        raise Machinery('LLSeqExpand emitted %d element lists' % len(cases))
+    for c in cases:
+        for smart in (True, False):
+            prob = seq_case(c, smart)
+            if prob:
+                ctx.violation({'sequence': c, 'smart': smart}, prob)
+    ctx.extra['sequence_template_element_lists'] = {'total': len(cases), 'left_recursive_expansions': sum(1 for c in cases if c['leftrec'])}
+
+
+LONG = 3000
+
+
+def long_case(name):
+    """one long input (LONG items) on an accepted grammar: ('ok' | 'ParsingError' | other outcome)"""
+    import sys
+    from ak import llparser
+    tok = TOK
+    n = LONG
+    if name == 'sequence':
+        prods, text, kw = {'E': [('SEQ',)], 'SEQ': llparser.ProdSequence('WORD', ',')}, ' , '.join(['a'] * n), {}
+    elif name == 'rightrec-raw':
+        prods, text, kw = {'E': [('WORD', 'E'), None]}, ' '.join(['a'] * n), {'do_cleanup': False}
+    elif name == 'list-raw':
+        prods, text, kw = {'E': [('L',)], 'L': llparser.ListProds('[', 'WORD', ',', ']')}, '[' + ' , '.join(['a'] * n) + ']', {'do_cleanup': False}
+    elif name == 'rightrec':
+        prods, text, kw = {'E': [('WORD', 'E'), None]}, ' '.join(['a'] * n), {}
+    elif name == 'list':
+        prods, text, kw = {'E': [('L',)], 'L': llparser.ListProds('[', 'WORD', ',', ']')}, '[' + ' , '.join(['a'] * n) + ']', {}
+    elif name == 'map':
+        prods, text, kw = ({'E': [('M',)], 'M': llparser.MapProds('{', 'WORD', ':', 'WORD', ',', '}')},
+                           '{' + ' , '.join('k%d : v' % i for i in range(n)) + '}', {})
+    else:
+        raise ValueError(name)
+    old = sys.getrecursionlimit()
+    sys.setrecursionlimit(1000)          # the interpreter's default, whatever the harness set
+    try:
+        p = llparser.LLParser(tok, synonyms=SYN, productions=prods)
+        p.parse(text, **kw)
+        return 'ok'
+    except llparser.ParsingError:
+        return 'ParsingError'
+    except RecursionError:
+        return 'RecursionError'
+    except Exception as e:
+        return 'other:' + type(e).__name__
+    finally:
+        sys.setrecursionlimit(old)
+
+
+def long_inputs(ctx):
+    """inputs of LONG items on accepted grammars: parse returns (or raises a parsing error) - the parser's own stack is a
+    list, so its depth is no problem; the DEFAULT CLEANUP of deep trees recurses (known finding F-C03b)"""
+    seen = {}
+    for name in ('sequence', 'rightrec-raw', 'list-raw', 'rightrec', 'list', 'map'):
+        outc = long_case(name)
+        seen[name] = outc
+        if outc in ('ok', 'ParsingError'):
+            continue
+        tags = ['ll.cleanup_recursion_depth'] if (outc == 'RecursionError' and name in ('rightrec', 'list', 'map')) else []
+        ctx.violation({'long': name}, 'accepted grammar %r, a valid input of %d items: parse gives %s instead of a tree' % (name, LONG, outc), tags)
+    ctx.extra['long_inputs'] = seen
+
+
 def run(ctx):
     ll.explore(ctx, 'C03')
     templates(ctx)
+    sequences(ctx)
+    long_inputs(ctx)
 
 
 def replay(ctx, case):
     if 'template' in case:
         return template_case(case['template'], case['smart'])
+    if 'sequence' in case:
+        return seq_case(case['sequence'], case['smart'])
+    if 'long' in case:
+        outc = long_case(case['long'])
+        return None if outc in ('ok', 'ParsingError') else 'parse gives %s' % outc
     return ll.replay_case(ctx, case, 'C03')
